@@ -68,6 +68,12 @@ def gen_queries(rng, feats):
         qs.append({"q": "ord", "api": "all", "ft": ft(), "strand": rng.choice([None, None, "-", "?", "."]), "keys": [], "form": "none",
                    "reverse": rng.random() < 0.3})
     qs.append({"q": "ord", "api": "all", "ft": None, "strand": None, "keys": [], "form": "none", "reverse": False})
+    if rng.random() < 0.15:
+        # a very long featuretype collection (a whole ontology's term list, of which a few occur): one sorted answer, not
+        # one per portion of the list
+        long_ft = sorted(set(["a%04d" % i for i in range(0, 1900, 2)] + TYPES + ["zzz_last"]))
+        qs.append({"q": "ord", "api": rng.choice(["all", "fot"]), "ft": long_ft, "strand": None, "keys": [rng.choice(["start", "end", "length"])],
+                   "form": "str", "reverse": rng.random() < 0.5})
     for q in qs:
         if q["api"] == "fot" and q["ft"] is None:
             q["ft"] = rng.choice(TYPES)
